@@ -505,8 +505,11 @@ func telnetNegCell(w *sched.W, rs, cutAt int) {
 
 // ---- end-to-end sessions ---------------------------------------------------------------------------
 
-func e2eCLI(w *sched.W, kind string) {
+func e2eCLI(w *sched.W, kind string, rs int) {
 	tag := "e2e-cli " + kind
+	if rs > 0 {
+		tag += fmt.Sprintf(" read-size=%d", rs)
+	}
 	if r := w.Replaying(); r != nil && r.Case != tag {
 		return
 	}
@@ -543,6 +546,9 @@ func e2eCLI(w *sched.W, kind string) {
 		wantOut = map[string]string{"show x": "x out"}
 	}
 	defer cleanup()
+	if rs > 0 {
+		opts = append(opts, options.WithTransportReadSize(rs)) // smaller than the banner, the echo and the outputs
+	}
 	d, err := generic.NewDriver("127.0.0.1", append(opts, options.WithTimeoutOps(20*time.Second))...)
 	if err != nil {
 		w.Violate("c16:e2e-new", tag+": "+err.Error(), tag)
@@ -679,7 +685,7 @@ func scenarios(tier string) []sched.Scenario {
 	}
 	for _, k := range []string{"standard-shell", "telnet-loop", "system-pty"} {
 		k := k
-		out = append(out, sched.Scenario{Name: "e2e-cli/" + k, Run: func(w *sched.W) { e2eCLI(w, k) }})
+		out = append(out, sched.Scenario{Name: "e2e-cli/" + k, Run: func(w *sched.W) { e2eCLI(w, k, 0); e2eCLI(w, k, 16) }})
 	}
 	out = append(out, sched.Scenario{Name: "e2e-netconf", Run: e2eNetconf})
 	for _, rs := range []int{1, 64} {
@@ -699,7 +705,7 @@ func TestCheck(t *testing.T) {
 	sched.Main(t, sched.Check{
 		ID:    "C16",
 		Level: "exploration",
-		Rule:  "finite grid, every cell executed once over real OS objects: transport {standard ssh shell, standard ssh netconf subsystem (in-process x/crypto/ssh server), telnet over loopback TCP, system transport over a pty with a stand-in peer in raw mode (shell and netconf-subsystem flavours)} x read size {1,7,64,8192} x payload size {1,n-1,n,n+1,2n+1,3n} (bytes cycling through 0x00-0xff) x peer script {one write, two halves, byte at a time, write-pause-write} x direction {peer->client, client->peer, echo}; plus a telnet opening split into two TCP segments at every offset; plus a read blocked when the transport is force-closed (also after the peer has gone silent without closing anything: standard, telnet) / when the peer goes away, a session that stays quiet for longer than its socket timeout (standard, telnet), and end-to-end CLI and NETCONF sessions whose results must equal those obtained over the ideal fake transport; distinct = distinct cells",
+		Rule:  "finite grid, every cell executed once over real OS objects: transport {standard ssh shell, standard ssh netconf subsystem (in-process x/crypto/ssh server), telnet over loopback TCP, system transport over a pty with a stand-in peer in raw mode (shell and netconf-subsystem flavours)} x read size {1,7,64,8192} x payload size {1,n-1,n,n+1,2n+1,3n} (bytes cycling through 0x00-0xff) x peer script {one write, two halves, byte at a time, write-pause-write} x direction {peer->client, client->peer, echo}; plus a telnet opening split into two TCP segments at every offset; plus a read blocked when the transport is force-closed (also after the peer has gone silent without closing anything: standard, telnet) / when the peer goes away, a session that stays quiet for longer than its socket timeout (standard, telnet), and end-to-end CLI (default read size and 16 bytes) and NETCONF sessions whose results must equal those obtained over the ideal fake transport; distinct = distinct cells",
 		Assumptions: []string{
 			"real sockets, ptys and crypto/ssh cannot run under the controlled scheduler: kernel scheduling and TCP/pty buffering are not enumerated, each cell is one run (stated limit)",
 			"pty leg: the stand-in peer switches the pty to raw mode and prints READY before the session counts as up",
